@@ -353,12 +353,13 @@ MASK = st.integers(1, 2 ** 12)
 
 
 @st.composite
-def qualdecl_recipe(draw, for_use=False):
+def qualdecl_recipe(draw, for_use=False, names=None):
     """
     strategies.build 'qualdecl' recipe.  for_use: declaration that is used
-    on class elements (no default value, scope ANY).
+    on class elements (no default value, scope ANY).  names: strategy of the
+    qualifier name (session sub-check: a small pool, so that names recur).
     """
-    name = draw(QUAL_NAME)
+    name = draw(QUAL_NAME if names is None else names)
     t = draw(QUAL_TYPE)
     is_array = draw(st.booleans())
     asz = draw(ARRAY_SIZE) if is_array else None
@@ -417,8 +418,8 @@ OPT_STUB = st.one_of(st.none(), st.none(), STUBNAME)
 
 
 @st.composite
-def cls_case(draw):
-    decls = draw(QUALDECLS_FOR_USE)
+def cls_case(draw, decl_lists=None, classnames=None):
+    decls = draw(QUALDECLS_FOR_USE if decl_lists is None else decl_lists)
     props = []
     seen = set()
     for _ in range(draw(st.integers(0, 4))):
@@ -504,7 +505,8 @@ def cls_case(draw):
                       'class_origin': None, 'propagated': None,
                       'qualifiers': []})
         maxline = draw(st.sampled_from([40, 41, 42, 44]))
-    cls = {'k': 'class', 'classname': draw(CLASSNAME),
+    cls = {'k': 'class',
+           'classname': draw(CLASSNAME if classnames is None else classnames),
            'superclass': draw(OPT_STUB),
            'properties': props, 'methods': meths,
            'qualifiers': _quals_from(draw, decls, 3)}
@@ -616,9 +618,9 @@ DEPTH = st.sampled_from([0, 0, 1, 1, 2])
 
 
 @st.composite
-def inst_case(draw):
+def inst_case(draw, classnames=None):
     depth = draw(DEPTH)
-    cname = draw(CLASSNAME)
+    cname = draw(CLASSNAME if classnames is None else classnames)
     return {'inst': inst_recipe(draw, depth, cname),
             'maxline': draw(MAXLINE)}
 
@@ -836,6 +838,29 @@ def compile_mof(text, real=False, guard=True):
 _CONFIRMED = set()
 
 
+def outcome(conn, exc, text, what, evaluate, emb_texts=(), exc_sig=None):
+    """
+    -> list of (signature, detail) for one compilation of `text` that raised
+    `exc` (or None) and left its objects in `conn`; one entry per signature.
+    """
+    if exc is not None:
+        sig = exc_sig(exc) if exc_sig else None
+        if sig is None:
+            sig = compile_failure_sig(exc, text, emb_texts)
+        if sig is None:
+            sig = 'compile-raises:' + (exc_signature(exc) or
+                                       type(exc).__name__)
+        return [(sig, '%s does not compile: %r\n--- MOF ---\n%s\n%s' % (
+            what, exc, text[:1500], exc_detail(exc, 4)))]
+    out = []
+    seen = set()
+    for sig, detail in evaluate(conn):
+        if sig not in seen:
+            seen.add(sig)
+            out.append((sig, detail + '\n--- MOF ---\n' + text[:1500]))
+    return out
+
+
 def roundtrip(ctx, text, what, evaluate, emb_texts=(), guard=True,
               exc_sig=None):
     """
@@ -845,22 +870,7 @@ def roundtrip(ctx, text, what, evaluate, emb_texts=(), guard=True,
     """
     def once(real):
         conn, exc = compile_mof(text, real, guard)
-        if exc is not None:
-            sig = exc_sig(exc) if exc_sig else None
-            if sig is None:
-                sig = compile_failure_sig(exc, text, emb_texts)
-            if sig is None:
-                sig = 'compile-raises:' + (exc_signature(exc) or
-                                           type(exc).__name__)
-            return [(sig, '%s does not compile: %r\n--- MOF ---\n%s\n%s' % (
-                what, exc, text[:1500], exc_detail(exc, 4)))]
-        out = []
-        seen = set()
-        for sig, detail in evaluate(conn):
-            if sig not in seen:
-                seen.add(sig)
-                out.append((sig, detail + '\n--- MOF ---\n' + text[:1500]))
-        return out
+        return outcome(conn, exc, text, what, evaluate, emb_texts, exc_sig)
     found = once(False)
     if found and not all(sig in _CONFIRMED for sig, _ in found):
         again = once(True)
@@ -1872,6 +1882,558 @@ def nonascii_oracle(ctx, ex):
 
 
 # ---------------------------------------------------------------------------
+# sub-check: session (ONE MOFCompiler object, several compilations; objects
+# that are printed again after a modification in place)
+
+SESSION_QNAME = st.one_of(
+    st.sampled_from(['Description', 'Q1', 'Key', 'Version']),
+    st.sampled_from(['Description', 'Q1', 'Key', 'Version']), QUAL_NAME)
+SESSION_CNAME = st.one_of(
+    st.sampled_from(['CIM_Foo', 'C1', 'My_Class']),
+    st.sampled_from(['CIM_Foo', 'C1', 'My_Class']), CLASSNAME)
+SESSION_POOL = st.lists(qualdecl_recipe(for_use=True, names=SESSION_QNAME),
+                        min_size=1, max_size=3,
+                        unique_by=lambda d: d['name'].lower())
+SESSION_QUALDECL = qualdecl_recipe(names=SESSION_QNAME)
+SESSION_INST = inst_case(classnames=SESSION_CNAME)
+SESSION_KIND0 = st.sampled_from(['cls'] * 4 + ['inst'] * 3 + ['qualdecl'])
+SESSION_KIND = st.sampled_from(['cls'] * 4 + ['inst'] * 3 + ['variant'] * 3 +
+                               ['qualdecl'] * 2)
+SESSION_MASK = st.sampled_from([0, 1, 2, 3, 4, 5, 6, 7, 9, 10, 12, 21, 42,
+                                85, 170, 255])
+SESSION_LEN = st.integers(3, 6)
+
+
+@st.composite
+def session_case(draw):
+    """
+    {'steps': [...]}, all steps are run with the same MOFCompiler:
+      ('qualdecl', recipe, maxline)  tomof() of a declaration (default
+                                     value, scopes) whose name may be in use
+      ('cls', cls_case, resend)      class that uses declarations of a pool
+                                     in which names recur with other flavors/
+                                     types; resend=False: declarations and
+                                     stub classes that are current in the
+                                     session are not sent again
+      ('inst', inst_case, resend)    same for an instance and its classes
+      ('variant', k, mask, maxline)  the object of the k-th earlier cls/inst
+                                     step is modified in place (mask selects
+                                     the elements; 0 = unchanged), printed
+                                     and compiled again
+    """
+    pool = draw(SESSION_POOL)
+    for i, d in enumerate(list(pool)):
+        # a second declaration of the same name: other flavors, sometimes
+        # also another type
+        if i and draw(SMALL) < 3:
+            continue
+        twin = draw(qualdecl_recipe(for_use=True,
+                                    names=st.just(d['name'])))
+        if draw(SMALL) < 6:
+            for k in ('type', 'is_array', 'array_size'):
+                twin[k] = d[k]
+        if draw(SMALL) == 7:
+            twin['name'] = _swap(twin['name'], draw(MASK))
+        pool.append(twin)
+    decl_lists = st.lists(st.sampled_from(pool), max_size=3,
+                          unique_by=lambda d: d['name'].lower())
+    cls_cases = cls_case(decl_lists, SESSION_CNAME)
+    steps = []
+    for i in range(draw(SESSION_LEN)):
+        kind = draw(SESSION_KIND if i else SESSION_KIND0)
+        if kind == 'qualdecl':
+            steps.append(('qualdecl', draw(SESSION_QUALDECL), draw(MAXLINE)))
+        elif kind == 'cls':
+            steps.append(('cls', draw(cls_cases), draw(st.booleans())))
+        elif kind == 'inst':
+            steps.append(('inst', draw(SESSION_INST), draw(st.booleans())))
+        else:
+            steps.append(('variant', draw(SMALL), draw(SESSION_MASK),
+                          draw(MAXLINE)))
+    return {'steps': steps}
+
+
+CLASS_SPLIT_RE = re.compile(r'(?m)^(?=class )')
+
+
+def _decl_key(d):
+    "what a hand-written declaration (decl_mof) says, without the spelling"
+    return (d['type'], d['is_array'], d['array_size'], tuple(d['scopes']),
+            d['overridable'], d['tosubclass'], bool(d['translatable']),
+            d['value'] is None)
+
+
+def _decl_flavors(d):
+    return (True if d['overridable'] is None else d['overridable'],
+            True if d['tosubclass'] is None else d['tosubclass'],
+            bool(d['translatable']))
+
+
+def _used_qualifier_names(r):
+    return {x['name'].lower() for x in S.walk(r)
+            if isinstance(x, dict) and x.get('k') == 'qual'}
+
+
+def vary_class(obj, r, mask):
+    """
+    Modify the CIMClass obj in place through its documented attributes and
+    the recipe r alike: for the selected elements a default value becomes
+    NULL, a property without default value, a method or a class qualifier is
+    deleted.  Returns the number of modifications.
+    """
+    n = 0
+    j = 0
+    for p in list(r['properties']):
+        sel = (mask >> (j % 8)) & 1
+        j += 1
+        if not sel:
+            continue
+        n += 1
+        if p['value'] is not None:
+            p['value'] = None
+            obj.properties[p['name']].value = None
+        else:
+            r['properties'].remove(p)
+            del obj.properties[p['name']]
+    for m in list(r['methods']):
+        sel = (mask >> (j % 8)) & 1
+        j += 1
+        if sel:
+            n += 1
+            r['methods'].remove(m)
+            del obj.methods[m['name']]
+    for q in list(r['qualifiers']):
+        sel = (mask >> (j % 8)) & 1
+        j += 1
+        if sel:
+            n += 1
+            r['qualifiers'].remove(q)
+            del obj.qualifiers[q['name']]
+    return n
+
+
+def vary_instance(obj, r, mask):
+    """
+    Same for a CIMInstance: the value of a selected property becomes NULL;
+    a property that is NULL already (or holds embedded objects) is deleted,
+    unless it is the last one.
+    """
+    n = 0
+    j = 0
+    for p in r['props']:
+        if not p['in_inst']:
+            continue
+        sel = (mask >> (j % 8)) & 1
+        j += 1
+        if not sel:
+            continue
+        if p['value'] is not None and not p['emb']:
+            p['value'] = None
+            obj.properties[p['spell']].value = None
+            n += 1
+        elif sum(1 for x in r['props'] if x['in_inst']) > 1:
+            p['in_inst'] = False
+            del obj.properties[p['spell']]
+            n += 1
+    return n
+
+
+class _Session:
+    """
+    One MOFCompiler on one MOFWBEMConnection and a model of what has been
+    compiled with it: the current declaration of every qualifier name, the
+    current MOF of every class name.
+    """
+
+    def __init__(self, real):
+        self.real = real
+        self.comp, self.conn = _new_compiler(real)
+        self.decls = {}         # name.lower() -> _decl_key() | ('tomof', n)
+        self.flavors_used = {}  # name.lower() -> flavors at the last use
+        self.types_used = {}
+        self.classdefs = {}     # classname.lower() -> MOF text | ('cls', n)
+        self.emb_sent = False
+        self.objs = []          # [kind, case (own copy), object, maxline]
+        self.results = []       # (kind, name, recipe copy, compiled object)
+        self.sent = []
+        self.found = []
+        self.events = []
+        self.classes = set()
+        self.compiled = 0
+        self.ninst = 0
+        self.dead = False
+
+    # -- bookkeeping
+
+    def event(self, name):
+        self.events.append(name)
+
+    def _history(self):
+        txt = '\n--- next compile_string() ---\n'.join(self.sent)
+        if len(txt) > 2500:
+            txt = '...' + txt[-2500:]
+        return txt
+
+    def _pre(self, decls, class_mof, resend):
+        """
+        -> (text to send, complete text, commit()): EmbeddedInstance/
+        EmbeddedObject declarations once per session; declarations and
+        classes that are current in the session only if resend.
+        """
+        send = [] if self.emb_sent else [EMB_DECLS]
+        full = [EMB_DECLS]
+        todo = []
+        for d in decls:
+            txt = decl_mof(d)
+            full.append(txt)
+            key = d['name'].lower()
+            if not resend and self.decls.get(key) == _decl_key(d):
+                self.event('declaration-reused-from-compiler-state')
+                self.classes.add('reuses-declaration')
+                continue
+            if key in self.decls and self.decls[key] != _decl_key(d):
+                self.event('qualifier-redeclared')
+                self.classes.add('redeclares-qualifier')
+            send.append(txt)
+            todo.append((self.decls, key, _decl_key(d)))
+        for piece in CLASS_SPLIT_RE.split(class_mof):
+            if not piece:
+                continue
+            full.append(piece)
+            key = piece.split()[1].lower()
+            if not resend and self.classdefs.get(key) == piece:
+                self.event('class-reused-from-compiler-state')
+                self.classes.add('reuses-class')
+                continue
+            if key in self.classdefs and self.classdefs[key] != piece:
+                self.event('class-redefined')
+                self.classes.add('redefines-class')
+            send.append(piece)
+            todo.append((self.classdefs, key, piece))
+
+        def commit():
+            self.emb_sent = True
+            for dct, key, val in todo:
+                dct[key] = val
+        return ''.join(send), ''.join(full), commit
+
+    def _note_uses(self, decls, r):
+        "classify the qualifier uses of class recipe r against earlier uses"
+        used = _used_qualifier_names(r)
+        for d in decls:
+            key = d['name'].lower()
+            if key not in used:
+                continue
+            fl = _decl_flavors(d)
+            ty = (d['type'], d['is_array'])
+            if key in self.flavors_used:
+                if self.flavors_used[key] != fl:
+                    self.event('qualifier-used-again:other-flavors')
+                    self.classes.add('qualifier-used-again:other-flavors')
+                elif self.types_used[key] != ty:
+                    self.event('qualifier-used-again:other-type')
+                    self.classes.add('qualifier-used-again:other-type')
+                else:
+                    self.event('qualifier-used-again:same-declaration')
+            self.flavors_used[key] = fl
+            self.types_used[key] = ty
+
+    # -- one compilation
+
+    def run(self, idx, what, sent, full_fresh, evaluate, commit, emb_texts=(),
+            state_prefix='compiler-state'):
+        """
+        compile_string(sent) with the session's compiler and evaluate; what
+        is found is reported unless a new compiler finds the same for the
+        complete text of a newly built equal object (then it is the business
+        of the other sub-checks).  evaluate(conn, n_before) -> [(sig, ..)].
+        """
+        if backtracking_hazard(full_fresh) or backtracking_hazard(sent) or \
+                any(backtracking_hazard(t) for t in emb_texts):
+            self.event('step-skipped:backtracking-hazard')
+            return False
+        n_before = len(self.conn.instances.get(NS, []))
+        exc = None
+        try:
+            with warnings.catch_warnings():
+                warnings.simplefilter('ignore')
+                self.comp.compile_string(sent, NS)
+        except Exception as e:  # pylint: disable=broad-except
+            exc = e
+        self.sent.append(sent)
+        self.compiled += 1
+        found = outcome(self.conn, exc, sent, what,
+                        lambda conn: evaluate(conn, n_before), emb_texts)
+        if found:
+            conn2, exc2 = compile_mof(full_fresh, self.real, guard=False)
+            base = outcome(conn2, exc2, full_fresh, what,
+                           lambda conn: evaluate(conn, 0), emb_texts)
+            base_sigs = {s for s, _ in base}
+            new = [(s, d) for s, d in found if s not in base_sigs]
+            if not new:
+                self.event('step-fails-with-new-compiler-too')
+            for sig, detail in new:
+                self.found.append((
+                    '%s:%s' % (state_prefix, sig),
+                    'step %d (%s), compilation %d of one MOFCompiler; a new '
+                    'MOFCompiler yields %s for the same object.\n%s\n'
+                    '=== all compile_string() texts of the session ===\n%s'
+                    % (idx, what, self.compiled,
+                       sorted(base_sigs) or 'an equal object', detail,
+                       self._history())))
+        if exc is not None:
+            # the state of a compiler after an error is not defined
+            self.event('session-ended-by-compile-error')
+            self.dead = True
+            return False
+        commit()
+        return True
+
+    # -- steps
+
+    def step_qualdecl(self, idx, r, maxline):
+        orig = S.build(r)
+        text = orig.tomof(maxline=maxline)
+        key = r['name'].lower()
+
+        def evaluate(conn, n_before):
+            d = Diff(text)
+            try:
+                got = conn.qualifiers[NS][orig.name]
+            except KeyError:
+                d.add('compiled-object-missing', 'qualifier declaration',
+                      orig.name, None)
+                return d.items
+            diff_qualdecl(d, orig, got)
+            return d.items
+
+        def commit():
+            if key in self.decls:
+                self.event('qualifier-redeclared')
+                self.classes.add('redeclares-qualifier')
+            self.decls[key] = _decl_key(r) if r['value'] is None and \
+                r['toinstance'] is None else ('tomof', idx)
+        if self.run(idx, 'qualifier declaration', text, text, evaluate,
+                    commit):
+            self.results.append(('qualdecl', orig.name, copy.deepcopy(r),
+                                 self.conn.qualifiers[NS].get(orig.name)))
+
+    def _tomof_pair(self, idx, obj, fresh, maxline):
+        """
+        tomof() of the session's object and of a newly built equal object
+        -> (text, fresh text, prefix) or None if the step cannot be run
+        """
+        try:
+            ftext = fresh.tomof(maxline=maxline)
+        except ValueError:
+            # unsplittable number on a short line: known finding of cls
+            self.event('step-skipped:tomof-raises-for-new-object-too')
+            return None
+        if obj is fresh:
+            return ftext, ftext, 'compiler-state'
+        try:
+            text = obj.tomof(maxline=maxline)
+        except Exception as exc:  # pylint: disable=broad-except
+            self.found.append((
+                'object-state:tomof-raises:' + (exc_signature(exc) or
+                                                type(exc).__name__),
+                'step %d: tomof() of an object modified in place raises, '
+                'tomof() of a newly built equal object does not\n%s' %
+                (idx, exc_detail(exc, 4))))
+            return None
+        if text != ftext:
+            self.event('variant:text-differs-from-new-equal-object')
+            return text, ftext, 'object-state'
+        return text, ftext, 'compiler-state'
+
+    def step_cls(self, idx, case, resend, obj=None, maxline=None):
+        "obj: object modified in place (variant); else built from the case"
+        r = case['cls']
+        maxline = case['maxline'] if maxline is None else maxline
+        fresh = S.build(r)
+        if obj is None:
+            obj = fresh
+        pair = self._tomof_pair(idx, obj, fresh, maxline)
+        if pair is None:
+            return None
+        body, fbody, prefix = pair
+        stubs = ''.join('class %s {\n};\n' % n for n in cls_stub_names(r))
+        pre, full, commit0 = self._pre(case['decls'], stubs, resend)
+        self._note_uses(case['decls'], r)
+        key = r['classname'].lower()
+        if key in self.classdefs:
+            self.event('class-redefined')
+            self.classes.add('redefines-class')
+
+        def evaluate(conn, n_before):
+            d = Diff(body)
+            try:
+                got = conn.classes[NS][fresh.classname]
+            except KeyError:
+                d.add('compiled-object-missing', 'class', fresh.classname,
+                      None)
+                return d.items
+            diff_class(d, fresh, got)
+            return d.items
+
+        def commit():
+            commit0()
+            self.classdefs[key] = ('cls', idx)
+        if self.run(idx, 'class', pre + body, full + fbody, evaluate, commit,
+                    state_prefix=prefix):
+            self.results.append(('cls', fresh.classname, copy.deepcopy(r),
+                                 self.conn.classes[NS].get(fresh.classname)))
+        return obj
+
+    def step_inst(self, idx, case, resend, obj=None, maxline=None):
+        r = case['inst']
+        maxline = case['maxline'] if maxline is None else maxline
+        fresh = build_c08inst(r)
+        if obj is None:
+            obj = fresh
+        pair = self._tomof_pair(idx, obj, fresh, maxline)
+        if pair is None:
+            return None
+        body, fbody, prefix = pair
+        embt = embedded_texts(obj)
+        pre, full, commit = self._pre([], inst_dep_mof(r), resend)
+        defaults = class_defaults(r)
+
+        def evaluate(conn, n_before):
+            d = Diff(body)
+            d.defaults = defaults
+            insts = conn.instances.get(NS, [])[n_before:]
+            if len(insts) != 1:
+                d.add('compiled-object-missing', 'new instances', 1,
+                      len(insts))
+                return d.items
+            diff_instance(d, 'instance', fresh, insts[0])
+            return d.items
+        if self.run(idx, 'instance', pre + body, full + fbody, evaluate,
+                    commit, emb_texts=embt, state_prefix=prefix):
+            self.results.append(('inst', None, copy.deepcopy(r),
+                                 self.conn.instances[NS][-1]))
+        return obj
+
+    def step_variant(self, idx, k, mask, maxline):
+        if not self.objs:
+            self.event('variant:no-earlier-object')
+            return
+        ent = self.objs[k % len(self.objs)]
+        kind, case, obj = ent
+        if kind == 'cls':
+            n = vary_class(obj, case['cls'], mask)
+            done = self.step_cls(idx, case, False, obj, maxline)
+        else:
+            n = vary_instance(obj, case['inst'], mask)
+            done = self.step_inst(idx, case, False, obj, maxline)
+        if done is not None:
+            what = 'modified-in-place' if n else 'unchanged'
+            self.event('variant:%s:%s' % (kind, what))
+            self.classes.add('variant:' + what)
+
+    def recheck(self):
+        """
+        What earlier compilations produced (and no later one replaced) is
+        still equal to its original at the end of the session.
+        """
+        for kind, name, r, got in self.results:
+            d = Diff('')
+            if kind == 'qualdecl':
+                if self.conn.qualifiers[NS].get(name) is not got:
+                    continue
+                diff_qualdecl(d, S.build(r), got)
+            elif kind == 'cls':
+                if self.conn.classes[NS].get(name) is not got:
+                    continue
+                diff_class(d, S.build(r), got)
+            else:
+                d.defaults = class_defaults(r)
+                diff_instance(d, 'instance', build_c08inst(r), got)
+            self.event('rechecked-at-end:' + kind)
+            base = None
+            for sig, detail in d.items:
+                if base is None:
+                    # what the compilation itself got wrong is not news
+                    base = self._fresh_sigs(kind, r)
+                if sig in base:
+                    continue
+                self.found.append((
+                    'compiler-state:earlier-result-changed:' + sig,
+                    '%s %s compiled earlier in the session differs from its '
+                    'original at the end of the session: %s\n=== all '
+                    'compile_string() texts of the session ===\n%s' %
+                    (kind, name, detail, self._history())))
+
+    def _fresh_sigs(self, kind, r):
+        d = Diff('')
+        if kind == 'qualdecl':
+            orig = S.build(r)
+            conn, exc = compile_mof(orig.tomof(), self.real)
+            if exc is None:
+                diff_qualdecl(d, orig, conn.qualifiers[NS][orig.name])
+        # classes and instances: compared when they were compiled; only
+        # the defects that every compilation shows are looked up here
+        return {s for s, _ in d.items} | _EVERY_COMPILATION
+
+
+# signatures of defects of a single compilation (known findings of the other
+# sub-checks) that the end-of-session comparison must not report again
+_EVERY_COMPILATION = frozenset([
+    'compiler:char16-literal-keeps-quotes-and-escapes'])
+
+
+def run_session(ex, real):
+    sess = _Session(real)
+    for idx, step in enumerate(copy.deepcopy(ex['steps'])):
+        kind = step[0]
+        if kind == 'qualdecl':
+            sess.step_qualdecl(idx, step[1], step[2])
+        elif kind == 'cls':
+            obj = sess.step_cls(idx, step[1], step[2])
+            if obj is not None:
+                sess.objs.append(['cls', step[1], obj])
+        elif kind == 'inst':
+            obj = sess.step_inst(idx, step[1], step[2])
+            if obj is not None:
+                sess.objs.append(['inst', step[1], obj])
+        else:
+            sess.step_variant(idx, step[1], step[2], step[3])
+        if sess.dead:
+            break
+    if not sess.dead:
+        sess.recheck()
+    return sess
+
+
+def session_oracle(ctx, ex):
+    sess = run_session(ex, False)
+    sigs = sorted({s for s, _ in sess.found})
+    if sigs and not all(s in _CONFIRMED for s in sigs):
+        again = run_session(ex, True)
+        if sorted({s for s, _ in again.found}) != sigs:
+            ctx.event('prototype-compiler-discrepancy')
+        else:
+            _CONFIRMED.update(sigs)
+        sess = again
+    seen = set()
+    for sig, detail in sess.found:
+        if sig not in seen:
+            seen.add(sig)
+            ctx.fail(sig, detail)
+    for name in sess.events:
+        ctx.event(name)
+    cl = set(sess.classes)
+    cl.add('compilations:%d' % min(sess.compiled, 6))
+    ctx.case(nontrivial=sess.compiled >= 2 and bool(sess.classes),
+             classes=cl)
+
+
+def session_strategy():
+    return session_case()
+
+
+# ---------------------------------------------------------------------------
 
 def cls_strategy():
     return cls_case()
@@ -1895,4 +2457,6 @@ SUBCHECKS = [
         quick=(16, 500), thorough=(16, 8000), case_timeout=20),
     Sub('nonascii', strategy=nonascii_strategy, oracle=nonascii_oracle,
         quick=(1, 40), thorough=(1, 200)),
+    Sub('session', strategy=session_strategy, oracle=session_oracle,
+        quick=(16, 90), thorough=(16, 1500), case_timeout=60),
 ]
